@@ -923,11 +923,10 @@ class Mesh2DTopology:
         connectivity. The standard name for this dimension is 'Two'.
         """
         two = 'Two'
-        # Check for the standard name
-        if two in self.dataset.sizes and self.dataset.sizes[two] == 2:
-            return two
         # Check the edge connectivity variables, if they are defined.
         # Their dimensions are the edge dimension and the dimension of size two.
+        # These take precedence over the standard name:
+        # some other variable might use a dimension called 'Two'.
         if self.has_edge_dimension:
             for key in ['edge_node_connectivity', 'edge_face_connectivity']:
                 name = self.mesh_attributes.get(key)
@@ -938,6 +937,9 @@ class Mesh2DTopology:
                     if dim != self.edge_dimension]
                 if len(other_dims) == 1 and self.dataset.sizes[other_dims[0]] == 2:
                     return other_dims[0]
+        # Check for the standard name
+        if two in self.dataset.sizes and self.dataset.sizes[two] == 2:
+            return two
         # Check for any other dimension of size 2
         for name, size in self.dataset.sizes.items():
             if size == 2:
